@@ -171,9 +171,23 @@ func (d *Driver) Close() { d.src.Close() }
 // SourceRunIDs: what the source double reports as master_replid / master_replid2.
 func SourceRunIDs() []string { return []string{strings.Repeat("f", 40), strings.Repeat("0", 40)} }
 
+// OpenCfg is what varies between start-ups.
+type OpenCfg struct {
+	Target         config.RedisConfig
+	Mode           config.ReplayMode
+	Window         uint
+	Parallelism    int  // replay.parallelism: lanes of parallel mode on a cluster target (0 = one per shard)
+	CanTransaction bool // SyncerConfig.CanTransaction (cmd/syncer.go: false for a cluster target fed from a standalone source)
+}
+
 // Open performs the real start-up bookkeeping against tgt and returns the output to replay with.
 func (d *Driver) Open(tgt Target, c Case, mode config.ReplayMode) (*syncer.RedisOutput, error) {
-	d.gate.acquire(fmt.Sprintf("%s/%d", mode, c.Window), func() {
+	return d.OpenCfg(OpenCfg{Target: tgt.Redis(), Mode: mode, Window: c.Window, CanTransaction: true})
+}
+
+// OpenCfg is Open for an arbitrary target configuration.
+func (d *Driver) OpenCfg(oc OpenCfg) (*syncer.RedisOutput, error) {
+	d.gate.acquire(fmt.Sprintf("%s/%d/%d", oc.Mode, oc.Window, oc.Parallelism), func() {
 		tr := true
 		tdb := -1
 		g := config.GetSyncerConfig()
@@ -182,15 +196,15 @@ func (d *Driver) Open(tgt Target, c Case, mode config.ReplayMode) (*syncer.Redis
 		g.Output = &config.OutputConfig{Replay: config.ReplayConfig{
 			ResumeFromBreakPoint: &tr, BisyncEnabled: &tr, ReplayRdbEnableRestore: &tr, ReplayTransaction: &tr,
 			KeyExists: "replace", MaxProtoBulkLen: 512 << 20, TargetDbCfg: &tdb, TargetDb: -1,
-			BatchCmdCount: c.Window, BatchTicker: 10 * time.Millisecond, BatchBufferSize: 64 * 1024, KeepaliveTicker: time.Hour,
-			ReplayRdbParallel: 1, UpdateCheckpointTicker: time.Hour, Mode: mode,
+			BatchCmdCount: oc.Window, BatchTicker: 10 * time.Millisecond, BatchBufferSize: 64 * 1024, KeepaliveTicker: time.Hour,
+			ReplayRdbParallel: 1, Parallelism: oc.Parallelism, UpdateCheckpointTicker: time.Hour, Mode: oc.Mode,
 			Stats: config.OutputStats{DisableLog: true, LogInterval: time.Hour},
 		}}
 	})
 	defer d.gate.release()
-	scfg := syncer.SyncerConfig{Id: 1, Input: drive.StandaloneRedis(d.src.Addr(), "7.2.0"), Output: tgt.Redis(),
+	scfg := syncer.SyncerConfig{Id: 1, Input: drive.StandaloneRedis(d.src.Addr(), "7.2.0"), Output: oc.Target,
 		Channel:        config.ChannelConfig{Type: config.ChannelTypeMemory, Memory: &config.MemoryConfig{MaxSize: 1 << 20, LogSize: 1 << 16}},
-		CanTransaction: true}
+		CanTransaction: oc.CanTransaction}
 	return d.NewOutput(scfg)
 }
 
